@@ -62,6 +62,19 @@ Example ex_two_messages :
   /\ fds_delivered w2 = [7; 9].
 Proof. vm_compute. repeat split; reflexivity. Qed.
 
+(* a message given up after EAGAIN at zero bytes (Drop does nothing), one given up after 20 bytes (Drop
+   panics; force_finish does not), one refused by send_message: the message after each of them is on the
+   wire as header ++ body right after what was there *)
+Example ex_abandon :
+  let r0 := run_send ex_ctx world0 [Again] in
+  let r1 := run_send ex_ctx world0 [Accept 20] in
+  drop_ctx ex_ctx = Ok tt /\ r_conn r0 = ex_conn1 /\ wire (r_world r0) = []
+  /\ (match r_caller r1 with Active x => drop_ctx x = Panic | _ => False end)
+  /\ (let '(c2, w2, res) := send_message_write_all ex_fields (r_conn r1) (ex_msg BE 0 None [1; 2]) (r_world r1) [WKernel (KAccept 100)] in
+      res = Ok 2 /\ wire w2 = firstnN 20 ex_hb ++ [66; 1; 0; 1; 0; 0; 0; 2; 0; 0; 0; 2; 0; 0; 0; 11; 3; 1; 115; 0; 2; 0; 0; 0; 65; 98; 0; 0; 0; 0; 0; 0; 1; 2])
+  /\ (exists c', send_message ex_fields ex_conn1 (ex_msg LE 255 None []) = Ok (c', None) /\ header_buf c' = [] /\ serial_counter c' = 3).
+Proof. vm_compute. repeat split; try reflexivity. eexists. repeat split. Qed.
+
 (* the invariant is satisfiable in a partial state *)
 Example ex_inv : Inv ex_hb ex_body [7; 9] 1 world0 ex_ctx world0.
 Proof. unfold Inv. vm_compute. repeat split; try reflexivity. discriminate. Qed.
